@@ -109,15 +109,22 @@ const PROFILES: &[Profile] = &[
     prof("reserve", "map", "reserve"),
     prof("iter", "map", "iter"),
     prof("xback", "map", "xback"),
+    prof("table", "table", "table"),
+    Profile { steps: Some(320), ..prof("table-churn", "table", "table-churn") },
     prof("set", "set", "set"),
     prof("set-pairs", "set", "set-pairs"),
     Profile { sweep: Some("panic"), sweep_ops: 6, sweep_k: 16, steps: Some(70), ..prof("panic-set", "set", "set") },
     Profile { sweep: Some("panic"), sweep_ops: 8, sweep_k: 12, steps: Some(90), ..prof("panic-set-pairs", "set", "set-pairs") },
+    prof("entry", "map", "entry"),
+    prof("entry-full", "map", "entry-full"),
     // fault sweeps
     Profile { sweep: Some("panic"), sweep_ops: 6, sweep_k: 16, steps: Some(70), ..prof("panic-mixed", "map", "mixed") },
     Profile { sweep: Some("panic"), sweep_ops: 4, sweep_k: 24, steps: Some(90), drop: Some(true), ..prof("panic-sat-drop", "map", "saturate") },
     Profile { sweep: Some("panic"), sweep_ops: 4, sweep_k: 24, steps: Some(90), drop: Some(false), ..prof("panic-sat-nodrop", "map", "saturate") },
+    Profile { sweep: Some("panic"), sweep_ops: 6, sweep_k: 16, steps: Some(70), ..prof("panic-entry", "map", "entry") },
     Profile { sweep: Some("alloc"), sweep_ops: 8, sweep_k: 8, steps: Some(60), ..prof("alloc-reserve", "map", "reserve") },
+    Profile { sweep: Some("panic"), sweep_ops: 6, sweep_k: 16, steps: Some(70), ..prof("panic-table", "table", "table") },
+    Profile { sweep: Some("panic"), sweep_ops: 4, sweep_k: 24, steps: Some(320), ..prof("panic-table-churn", "table", "table-churn") },
 ];
 
 
@@ -163,13 +170,14 @@ fn apply_pre(pre: &[String]) {
 
 /// Build one base scenario by running the generator against the real collection.
 fn make_base(prof: &Profile, seed: u64, i: usize, real: Option<&mut dyn Write>) -> Base {
-    let s = mix3(seed, i as u64, 0x51);
+    let s = mix3(seed.wrapping_mul(1_000_003), (i as u64).wrapping_mul(7919), 0x51);
     let mut rng = Rng::new(s);
     let drop = match prof.drop {
         Some(d) => d,
         None => rng.chance(2, 3),
     };
     let lay = *rng.pick(&["std", "std", "std", "a16", "a64", "big"]);
+    let lay = if prof.coll == "table" && rng.chance(1, 5) { "zst" } else { lay };
     let universe = *rng.pick(&[4u64, 8, 12, 16, 24, 32, 64, 200]);
     let universe = if prof.gen == "saturate" { 4096 } else { universe };
     let kind = *rng.pick(gen::PLAN_KINDS);
